@@ -6,10 +6,6 @@ import (
 	"ti/base"
 	"ti/builtin"
 	"ti/cmd"
-	"ti/context"
-	"ti/lexer"
-	"ti/lexer/reader"
-	"ti/parser"
 	"ti/verifapi"
 )
 
@@ -1195,7 +1191,9 @@ func VerifExtraConfig(n int) {
 
 var verifBlockNames = []string{"each-do-one-param", "each-braces-one-param", "each_with_index-two-params", "surplus-parameter-is-nil", "hash-each-value",
 	"times-integer-param", "each_char-string-param", "shadowed-outer-variable-restored", "block-local-not-visible-after", "nested-blocks", "no-params", "range-each",
-	"shadowing-block-containing-a-block", "shadowing-brace-block-containing-a-brace-block", "inner-parameter-shadows-outer-block-local", "inner-parameter-shadows-outer-parameter"}
+	"shadowing-block-containing-a-block", "shadowing-brace-block-containing-a-brace-block", "inner-parameter-shadows-outer-block-local", "inner-parameter-shadows-outer-parameter",
+	"pair-destructured", "two-pairs-destructured", "collect-item", "sort-two-params", "merge-three-params", "each_index", "hash-collect-item", "reject-unify",
+	"one-param-on-pairs", "ragged-pairs-destructured", "hash-each-key-and-value", "each_with_index-on-pairs"}
 
 func VerifBlocks(n int) {
 	sk := verifapi.Concrete(verifapi.Int("skeleton", 0, len(verifBlockNames)-1))
@@ -1260,6 +1258,42 @@ func VerifBlocks(n int) {
 	case 14:
 		src = "a = [Sym.a]\nb = [Sym.b]\na.each do |e|\nw = 1.5\nb.each do |w|\ndbtp w\nend\ndbtp w\nend\ndbtp w\n"
 		exps = []ex{{"C17-p1", 6, []string{verifKN(s.kb)}, "block-parameter-does-not-shadow"}, {"C17-p2", 8, []string{"Float"}, "shadowed-variable-not-restored"}}
+	case 16:
+		src = "a = [[Sym.a, Sym.b]]\na.each do |m, n|\ndbtp m\ndbtp n\nend\n"
+		exps = []ex{{"C17-p1", 3, []string{verifKN(s.ka)}, "block-parameter-type-wrong"}, {"C17-p2", 4, []string{verifKN(s.kb)}, "block-parameter-type-wrong"}}
+	case 17:
+		src = "a = [[Sym.a, 1], [Sym.b, \"s\"]]\na.each do |m, n|\ndbtp m\ndbtp n\nend\n"
+		exps = []ex{{"C17-p1", 3, uni, "block-parameter-type-wrong"}, {"C17-p2", 4, verifUnionAlts([]int{base.VkInt, base.VkString}), "block-parameter-type-wrong"}}
+	case 18:
+		src = "a = [Sym.a, Sym.b]\na.collect do |e|\ndbtp e\nend\n"
+		exps = []ex{{"C17-p1", 3, uni, "block-parameter-type-wrong"}}
+	case 19:
+		src = "a = [Sym.a, Sym.b]\na.sort do |x, y|\ndbtp x\ndbtp y\nend\n"
+		exps = []ex{{"C17-p1", 3, uni, "block-parameter-type-wrong"}, {"C17-p2", 4, uni, "block-parameter-type-wrong"}}
+	case 20:
+		src = "h = {k: Sym.a}\nh.merge({j: Sym.b}) do |key, old, new|\ndbtp key\ndbtp old\ndbtp new\nend\n"
+		exps = []ex{{"C17-p1", 3, []string{"Symbol"}, "block-parameter-type-wrong"}, {"C17-p2", 4, []string{verifKN(s.ka)}, "block-parameter-type-wrong"}, {"C17-p3", 5, []string{verifKN(s.kb)}, "block-parameter-type-wrong"}}
+	case 21:
+		src = "a = [Sym.a, Sym.b]\na.each_index do |i|\ndbtp i\nend\n"
+		exps = []ex{{"C17-p1", 3, []string{"Integer"}, "block-parameter-type-wrong"}}
+	case 22:
+		src = "h = {k: Sym.a}\nx = Sym.b\nh.collect do |e|\ndbtp e\nend\n"
+		exps = []ex{{"C17-p1", 4, verifArrayAlts([]int{base.VkSymbol, s.ka}), "block-parameter-type-wrong"}}
+	case 23:
+		src = "a = [Sym.a, Sym.b]\na.reject do |e|\ndbtp e\nend\n"
+		exps = []ex{{"C17-p1", 3, uni, "block-parameter-type-wrong"}}
+	case 24:
+		src = "a = [[Sym.a, Sym.b]]\na.each do |m|\ndbtp m\nend\n"
+		exps = []ex{{"C17-p1", 3, verifArrayAlts([]int{s.ka, s.kb}), "block-parameter-type-wrong"}}
+	case 25:
+		src = "a = [[Sym.a, 1.5], [Sym.b]]\na.each do |m, n|\ndbtp m\ndbtp n\nend\n"
+		exps = []ex{{"C17-p1", 3, uni, "block-parameter-type-wrong"}, {"C17-p2", 4, verifUnionAlts([]int{base.VkFloat, base.VkNil}), "block-parameter-type-wrong"}}
+	case 26:
+		src = "h = {k: Sym.a, j: Sym.b}\nh.each do |k, v|\ndbtp k\ndbtp v\nend\n"
+		exps = []ex{{"C17-p1", 3, []string{"untyped"}, "block-parameter-type-wrong"}, {"C17-p2", 4, uni, "block-parameter-type-wrong"}}
+	case 27:
+		src = "a = [[Sym.a, Sym.b]]\na.each_with_index do |m, i|\ndbtp m\ndbtp i\nend\n"
+		exps = []ex{{"C17-p1", 3, verifArrayAlts([]int{s.ka, s.kb}), "block-parameter-type-wrong"}, {"C17-p2", 4, []string{"Integer"}, "block-parameter-type-wrong"}}
 	case 15:
 		src = "a = [Sym.a]\nb = [Sym.b]\na.each do |e|\nb.each do |e|\ndbtp e\nend\ndbtp e\nend\ndbtp a\n"
 		exps = []ex{{"C17-p1", 5, []string{verifKN(s.kb)}, "block-parameter-does-not-shadow"}, {"C17-p2", 7, []string{verifKN(s.ka)}, "shadowed-variable-not-restored"},
@@ -1268,6 +1302,7 @@ func VerifBlocks(n int) {
 	verifapi.Witness("src", src)
 	out := verifRun(src)
 	verifapi.Reach("ran")
+	verifapi.Witness("engine-output", out)
 	for _, e := range exps {
 		verifExpectOneOf(out, e.id, cls(e.what), e.row, e.alts)
 	}
@@ -1691,17 +1726,8 @@ func VerifDeterminism(n int) {
 // verifRunPreload runs the rounds exactly as main does for a target file with preload files:
 // cleanSimpleIdentifires, preload(round), evaluationLoop(target).
 func verifRunPreload(src string) string {
-	flags := cmd.NewExecuteFlags()
-	os.Args = []string{"ti", "./a.rb"}
-	verifapi.CatchExit(func() {
-		for _, round := range context.GetRounds() {
-			p := parser.New(lexer.New(reader.VerifNew([]rune(src))), "./a.rb")
-			cmd.ApplyParserFlags(&p)
-			cleanSimpleIdentifires()
-			preload(round, flags)
-			evaluationLoop(p, flags, round, false)
-		}
-	})
+	// the real main() reads .ti-loader.json and the preload files from the virtual file system
+	verifapi.CatchExit(func() { verifRunProgram(src, "./a.rb", cmd.NewExecuteFlags(), 0) })
 	return verifapi.TakeStdout()
 }
 
@@ -1712,6 +1738,11 @@ var verifPreloadSkels = []struct {
 	{"class-then-use", []string{"class Aa\ndef foo\nSym.a\nend\nend\n", "class Bb < Aa\ndef bar\nfoo\nend\nend\n", "o = Bb.new\ndbtp o.foo\ndbtp o.bar\nundefined_fn(1)\n"}},
 	{"helper-method", []string{"def helper(v)\nv\nend\n", "x = helper(Sym.a)\n", "dbtp x\ny = helper(1)\ndbtp y\n"}},
 	{"diagnostic-in-preloaded-part", []string{"z = 1 + \"s\"\nnope_fn(2)\n", "w = Sym.a\n", "dbtp w\ndbtp z\n"}},
+	// the preloaded part leaves placeholders (never-assigned attribute, never-inferred parameter)
+	{"attr-reader-never-assigned", []string{"class Hoge\nattr_reader :hog\nattr_accessor :acc\nend\n", "w = Sym.a\n", "h = Hoge.new\nh.hog\ndbtp h.acc\ndbtp w\n"}},
+	{"uninferred-parameter", []string{"def test(x)\np x\nend\n", "w = Sym.a\n", "test(1, 2)\ntest(k: 1)\ndbtp w\n"}},
+	{"instance-variable-and-constant", []string{"class Cc\nLIMIT = 3\ndef initialize(v)\n@v = v\nend\ndef get\n@v\nend\nend\n", "c = Cc.new(Sym.a)\n", "dbtp c.get\ndbtp Cc::LIMIT\nd = Cc.new(1.5)\ndbtp d.get\n"}},
+	{"module-mixin", []string{"module Mm\ndef mix\n1\nend\nend\n", "class Dd\ninclude Mm\ndef own(a)\na\nend\nend\n", "d = Dd.new\ndbtp d.mix\ndbtp d.own(Sym.a)\nd.own\n"}},
 }
 
 // VerifPreload: the program is split at top-level statement boundaries into 1 or 2 preload
@@ -1783,6 +1814,17 @@ const verifCfgCh2 = `{"frame": "Builtin", "class": "Ch", "instance_methods": [
 const verifCfgGc = `{"frame": "Builtin", "class": "Gc", "extends": ["Ch"], "instance_methods": [],
  "class_methods": [{"name": "new", "arguments": [], "return_type": {"type": ["Gc"]}}]}`
 
+const verifCfgWiBuiltin = `{"frame": "Builtin", "class": "Wi", "instance_methods": [], "class_methods": [
+ {"name": "build", "arguments": [], "return_type": {"type": ["Int"]}}, {"name": "only_b", "arguments": [], "return_type": {"type": ["Bool"]}}]}`
+const verifCfgWiApp = `{"frame": "App", "class": "Wi", "instance_methods": [], "class_methods": [
+ {"name": "build", "arguments": [], "return_type": {"type": ["String"]}}, {"name": "only_a", "arguments": [], "return_type": {"type": ["Float"]}}]}`
+const verifCfgWiOther = `{"frame": "Other", "class": "Wi", "instance_methods": [], "class_methods": [
+ {"name": "build", "arguments": [], "return_type": {"type": ["Symbol"]}}]}`
+const verifCfgWiNested = `{"frame": "Builtin::App", "class": "Wi", "instance_methods": [], "class_methods": [
+ {"name": "build", "arguments": [], "return_type": {"type": ["Float"]}}]}`
+
+const verifCfgWiProbe = "dbtp Wi.build\ndbtp App::Wi.build\ndbtp Other::Wi.build\ndbtp Wi.only_b\ndbtp App::Wi.only_a\nx = Sym.a\ndbtp x\n"
+
 const verifCfgProbe = "a = Pa.new\ndbtp a.m(1)\ndbtp a.m(\"s\")\nc = Ch.new\ndbtp c.m(:y)\ndbtp c.m(1)\ndbtp c.k\ng = Gc.new\ndbtp g.m(1)\ndbtp g.k\ndbtp a.m(Sym.a)\ndbtp c.m(Sym.a)\na.only_pa\nc.k(1)\na.m\n"
 
 var verifPerm3Names = [][]string{{"a", "b", "c"}, {"a", "c", "b"}, {"b", "a", "c"}, {"b", "c", "a"}, {"c", "a", "b"}, {"c", "b", "a"}}
@@ -1793,16 +1835,17 @@ var verifPerm3Names = [][]string{{"a", "b", "c"}, {"a", "c", "b"}, {"b", "a", "c
 // another of the 6 load orders, or with the child's declarations split over two files placed
 // around the parent; the probe program's output must be identical.
 func VerifConfigOrder(n int) {
-	variant := verifapi.Concrete(verifapi.Int("variant", 1, 8))
+	variant := verifapi.Concrete(verifapi.Int("variant", 1, 11))
 	s := verifInstallSym("a")
 	verifapi.WitnessList("Sym.a", verifKN(s.ka))
+	probe := verifCfgProbe
 	load := func(files [][2]string) string {
 		for _, f := range files {
 			verifapi.SetFile(".ti-config/"+f[0]+".json", f[1])
 		}
 		verifapi.VfsOnly(".ti-config")
 		builtin.VerifLoadConfigAgain()
-		return verifRun(verifCfgProbe)
+		return verifRun(probe)
 	}
 	ref := [][2]string{{"a_pa", verifCfgPa}, {"b_ch", verifCfgCh}, {"c_gc", verifCfgGc}}
 	var other [][2]string
@@ -1818,11 +1861,27 @@ func VerifConfigOrder(n int) {
 	case variant == 7:
 		other = [][2]string{{"a_ch1", verifCfgCh1}, {"b_pa", verifCfgPa}, {"c_ch2", verifCfgCh2}, {"d_gc", verifCfgGc}}
 		name = "child-split-around-parent-extends-part-first"
-	default:
+	case variant == 8:
 		other = [][2]string{{"a_ch2", verifCfgCh2}, {"b_pa", verifCfgPa}, {"c_ch1", verifCfgCh1}, {"d_gc", verifCfgGc}}
 		name = "child-split-around-parent-method-part-first"
+	case variant == 9:
+		// one class name in two frames, each declaring a class method of the same name
+		probe = verifCfgWiProbe
+		ref = [][2]string{{"a_wb", verifCfgWiBuiltin}, {"b_wa", verifCfgWiApp}}
+		other = [][2]string{{"b_wb", verifCfgWiBuiltin}, {"a_wa", verifCfgWiApp}}
+		name = "same-class-name-in-builtin-and-app-frames-load-order-swapped"
+	case variant == 10:
+		probe = verifCfgWiProbe
+		ref = [][2]string{{"a_wb", verifCfgWiBuiltin}, {"b_wa", verifCfgWiApp}, {"c_wo", verifCfgWiOther}}
+		other = [][2]string{{"c_wb", verifCfgWiBuiltin}, {"b_wa", verifCfgWiApp}, {"a_wo", verifCfgWiOther}}
+		name = "same-class-name-in-three-frames-load-order-reversed"
+	default:
+		probe = verifCfgWiProbe
+		ref = [][2]string{{"a_wb", verifCfgWiBuiltin}, {"b_wn", verifCfgWiNested}}
+		other = [][2]string{{"b_wb", verifCfgWiBuiltin}, {"a_wn", verifCfgWiNested}}
+		name = "same-class-name-in-builtin-and-nested-builtin-frames-load-order-swapped"
 	}
-	verifapi.Witness("src", verifCfgProbe)
+	verifapi.Witness("src", probe)
 	filesW := ""
 	for _, f := range other {
 		filesW += f[0] + ".json\x1e" + f[1] + "\x1d"
